@@ -82,10 +82,15 @@ class WorkerState:
                     self.value = self.saved.pop()
             elif name == "exit_exc":
                 n = min(op[1], len(self.cms))
-                exc = Boom("body failed")
+                # the body may be left by any exception, also by the BaseExceptions used for cancellation / interruption
+                import asyncio as _asyncio
+
+                cls = {"boom": Boom, "keyboard": KeyboardInterrupt, "cancelled": _asyncio.CancelledError, "exit": SystemExit,
+                       "generator_exit": GeneratorExit}[op[2] if len(op) > 2 else "boom"]
+                exc = cls("body failed")
                 for _ in range(n):
                     cm = self.cms.pop()
-                    swallowed = cm.__exit__(Boom, exc, None)
+                    swallowed = cm.__exit__(cls, exc, None)
                     self._require(not swallowed, "exception_swallowed", "the context manager swallowed the body's exception")
                     self.value = self.saved.pop()
             elif name == "set":
@@ -115,8 +120,15 @@ class WorkerState:
             elif name == "try_negative":
                 from physt.histogram1d import Histogram1D
 
+                def _nan_hist():
+                    return Histogram1D(np.array([0.0, 1.0, 2.0, 3.0]), np.array([np.nan, 2.0, 1.0]))
+
                 fn = {"construct": lambda: Histogram1D(np.array([0.0, 1.0, 2.0]), np.array([-1, 2])), "scale": lambda: _hist() * -1,
-                      "setter": lambda: setattr(_hist(), "frequencies", np.array([-1, 1]))}[op[1]]
+                      "setter": lambda: setattr(_hist(), "frequencies", np.array([-1, 1])),
+                      # an unknown (NaN) bin next to the negative one does not hide it
+                      "construct_nan": lambda: Histogram1D(np.array([0.0, 1.0, 2.0, 3.0]), np.array([np.nan, -3.0, 1.0])),
+                      "scale_nan": lambda: _nan_hist() * -1, "setter_nan": lambda: setattr(_nan_hist(), "frequencies", np.array([1.0, np.nan, -1.0])),
+                      "divide": lambda: _hist() / -2}[op[1]]
                 try:
                     fn()
                     ok = True
@@ -347,7 +359,7 @@ def program(draw, max_len):
             depth -= 1
         elif c == "exit_exc":
             k = draw(st.integers(1, depth))
-            out.append(["exit_exc", k])
+            out.append(["exit_exc", k, draw(st.sampled_from(["boom", "boom", "keyboard", "cancelled", "exit", "generator_exit"]))])
             depth -= k
         elif c == "set":
             out.append(["set", draw(st.booleans())])
@@ -356,7 +368,7 @@ def program(draw, max_len):
         elif c == "try_array":
             out.append(["try_array", draw(st.sampled_from(ARRAY_FORMS))])
         else:
-            out.append(["try_negative", draw(st.sampled_from(["construct", "scale", "setter"]))])
+            out.append(["try_negative", draw(st.sampled_from(["construct", "scale", "setter", "construct_nan", "scale_nan", "setter_nan", "divide"]))])
     return out
 
 
